@@ -43,20 +43,21 @@ var allKinds = []weighted{
 	{"int", 10}, {"string", 10}, {"bool", 3}, {"int8", 2}, {"int64", 3}, {"uint64", 2}, {"myint", 4}, {"mystr", 2},
 	{"time", 2}, {"bytes", 2}, {"ptr", 5}, {"slice", 6}, {"seq", 2}, {"array", 2}, {"map", 4}, {"func", 2}, {"chan", 2},
 	{"any", 3}, {"iface", 2}, {"ifacelit", 1}, {"opt", 12}, {"tuple2", 1}, {"money", 1}, {"pt", 1}, {"struct", 4}, {"tparam", 8},
+	{"dur", 3}, {"amoney", 2},
 }
 
 // kinds whose encoding/json encoding is faithful (with the Faithful value generator)
 var jsonKinds = map[string]bool{"int": true, "string": true, "bool": true, "int8": true, "int64": true, "uint64": true, "myint": true,
 	"mystr": true, "time": true, "bytes": true, "ptr": true, "slice": true, "seq": true, "array": true, "map": true, "any": true,
-	"opt": true, "tuple2": true, "struct": true, "tparam": true, "money": true}
+	"opt": true, "tuple2": true, "struct": true, "tparam": true, "money": true, "dur": true, "amoney": true}
 
 // kinds for which the typeclass packages provide (or gombok derives) instances
 var classKinds = map[string]map[string]bool{
-	"eq":     set("int", "int8", "int64", "uint64", "bool", "string", "myint", "mystr", "time", "bytes", "money", "pt", "opt", "slice", "seq", "map", "ptr", "tuple2", "struct", "tparam"),
-	"ord":    set("int", "int8", "int64", "uint64", "string", "myint", "mystr", "time", "money", "opt", "slice", "seq", "ptr", "tuple2", "struct", "tparam"),
-	"hash":   set("int", "int8", "int64", "uint64", "string", "myint", "bytes", "money", "opt", "slice", "seq", "ptr", "tuple2", "struct", "tparam"),
-	"monoid": set("int", "int8", "int64", "uint64", "string", "mystr", "myint", "money", "opt", "slice", "seq", "map", "tuple2", "struct", "tparam"),
-	"clone":  set("int", "int8", "int64", "uint64", "bool", "string", "myint", "mystr", "time", "bytes", "money", "opt", "slice", "seq", "map", "ptr", "tuple2", "struct", "tparam", "any"),
+	"eq":     set("int", "int8", "int64", "uint64", "bool", "string", "myint", "mystr", "time", "dur", "bytes", "money", "pt", "opt", "slice", "seq", "map", "ptr", "tuple2", "struct", "tparam", "index"),
+	"ord":    set("int", "int8", "int64", "uint64", "string", "myint", "mystr", "time", "dur", "money", "opt", "slice", "seq", "ptr", "tuple2", "struct", "tparam"),
+	"hash":   set("int", "int8", "int64", "uint64", "string", "myint", "dur", "bytes", "money", "opt", "slice", "seq", "ptr", "tuple2", "struct", "tparam"),
+	"monoid": set("int", "int8", "int64", "uint64", "string", "mystr", "myint", "dur", "money", "opt", "slice", "seq", "map", "tuple2", "struct", "tparam"),
+	"clone":  set("int", "int8", "int64", "uint64", "bool", "string", "myint", "mystr", "time", "dur", "bytes", "money", "opt", "slice", "seq", "map", "ptr", "tuple2", "struct", "tparam", "any", "index"),
 	"show":   set("int", "int8", "int64", "uint64", "bool", "string", "myint", "time", "opt", "slice", "seq", "ptr", "tuple2", "struct"),
 }
 
@@ -152,7 +153,7 @@ func jsonFaithful(t *Ty, st *Struct) bool {
 func (s *Struct) JSONRoundTrips() bool {
 	if s.Plain {
 		for _, f := range s.Fields {
-			if !jsonFaithful(f.Ty, s) || f.Name[0] < 'A' || f.Name[0] > 'Z' {
+			if !jsonFaithful(f.Ty, s) || f.Name[0] < 'A' || f.Name[0] > 'Z' || strings.Contains(f.Tag, `json:"-`) {
 				return false
 			}
 		}
@@ -432,7 +433,7 @@ func GenStruct(r *Rng, pkg *Package, name string) *Struct {
 	st := &Struct{Name: name}
 	c := &genCtx{r: r, pkg: pkg, st: st}
 	shape := pickW(r, []weighted{{"value", 22}, {"json", 14}, {"derive", 22}, {"generic", 10}, {"recursive", 5}, {"plain", 6},
-		{"big", 8}, {"annmix", 6}, {"user", 5}, {"clash", 2}})
+		{"big", 8}, {"annmix", 6}, {"user", 5}, {"clash", 2}, {"recclone", 4}})
 	st.Shape = shape
 	valueAnn := func() {
 		st.Ann.Value = true
@@ -522,6 +523,26 @@ func GenStruct(r *Rng, pkg *Package, name string) *Struct {
 			c.classes = []string{"eq"}
 		}
 		c.fields(1+r.Intn(5), false, true)
+	case "recclone":
+		// @fp.Derive(recursive=true) over a nested named struct that has NO annotation and NO declared
+		// instance (ZzIndex: exported and unexported fields, all holding mutable storage): gombok must
+		// derive a deep instance for it too (CloneZzIndex / EqZzIndex)
+		st.Plain = true
+		c.classes = []string{"clone"}
+		if r.Intn(2) == 0 {
+			c.classes = append(c.classes, "eq")
+		}
+		c.allow = func(k string) bool {
+			return k == "int" || k == "string" || k == "bool" || k == "int64" || k == "opt" || k == "slice" || k == "ptr" || k == "map" || k == "myint" || k == "mystr"
+		}
+		c.fields(1+r.Intn(3), false, true)
+		st.Fields = append(st.Fields, Field{Name: "Idx", Ty: T("index")})
+		switch r.Intn(3) {
+		case 0:
+			st.Fields = append(st.Fields, Field{Name: "PIdx", Ty: TE("ptr", T("index"))})
+		case 1:
+			st.Fields = append(st.Fields, Field{Name: "Idxs", Ty: TE("slice", T("index"))})
+		}
 	case "big":
 		valueAnn()
 		if r.Intn(2) == 0 {
@@ -582,7 +603,7 @@ func GenStruct(r *Rng, pkg *Package, name string) *Struct {
 				}
 			}
 			if ok {
-				st.Derives = append(st.Derives, Derive{Class: cl, Recursive: st.Plain && r.Intn(2) == 0})
+				st.Derives = append(st.Derives, Derive{Class: cl, Recursive: shape == "recclone" || (st.Plain && r.Intn(2) == 0)})
 			}
 		}
 	}
